@@ -107,16 +107,23 @@ type tracker struct {
 	mu    sync.Mutex
 	calls []string
 	vt    *valTable
+	raw   func(kind string, p *api.Pin) // hook suite: sees every call as it is
 }
 
 func (t *tracker) Track(ctx context.Context, in *api.Pin, out *struct{}) error {
 	t.mu.Lock()
+	if t.raw != nil {
+		t.raw("T", in)
+	}
 	t.calls = append(t.calls, fmt.Sprintf("T%d.%d", common.CidIndex(in.Cid, common.PinUniverse), t.vt.val(in)))
 	t.mu.Unlock()
 	return nil
 }
 func (t *tracker) Untrack(ctx context.Context, in *api.Pin, out *struct{}) error {
 	t.mu.Lock()
+	if t.raw != nil {
+		t.raw("N", in)
+	}
 	t.calls = append(t.calls, fmt.Sprintf("N%d", common.CidIndex(in.Cid, common.PinUniverse)))
 	t.mu.Unlock()
 	return nil
